@@ -64,4 +64,36 @@ theorem data_null_has_error (fuel : Nat) (S : Schema) (o : Oracle) (env : Env) (
 /-- non-vacuity: a concrete failing job -/
 example : (catchField false [] [.key "a", .idx 0] (.error (.raw "resolver" true "boom" []), {})).2.errors.length = 1 := by rfl
 
+
+/-- items are numbered by their own position, whatever the length of the list (no batch / chunk restarts) -/
+theorem enumFrom_getElem {α : Type} (xs : List α) (k i : Nat) :
+    (enumFrom k xs)[i]? = (xs[i]?).map (fun x => (k + i, x)) := by
+  induction xs generalizing k i with
+  | nil => simp [enumFrom]
+  | cons x xs ih =>
+    cases i with
+    | zero => simp [enumFrom]
+    | succ j =>
+      simp only [enumFrom, List.getElem?_cons_succ, ih]
+      cases xs[j]? with
+      | none => rfl
+      | some y => simp; omega
+
+theorem enumFrom_length {α : Type} (xs : List α) (k : Nat) : (enumFrom k xs).length = xs.length := by
+  induction xs generalizing k with
+  | nil => simp [enumFrom]
+  | cons x xs ih => simp [enumFrom, ih]
+
+/-- a list item that is an exception instance, at ANY position `i` of a list of ANY length, is reported under
+    `path ++ [i]` — the i-th job of `completeList` is the i-th item with its own index -/
+theorem failing_item_reported_at_own_index (rec : Rec) (t : TypeRef) (pt fname : String) (nodes : List Selection)
+    (path : List PathSeg) (items : List PyVal) (i : Nat) (t' : Bool) (m : String) (e : List (String × PyVal)) (st : St)
+    (hi : items[i]? = some (.exc t' m e)) :
+    ∃ job, (enumFrom 0 items)[i]? = some job ∧
+      itemStep rec t pt fname nodes path job st
+        = catchField t.isNonNull nodes (path ++ [PathSeg.idx i]) (.error (.raw "resolver" t' m e), st) := by
+  refine ⟨(i, .exc t' m e), ?_, ?_⟩
+  · rw [enumFrom_getElem, hi]; simp
+  · simp [itemStep]
+
 end Tart.C02
